@@ -21,6 +21,7 @@ type c08cfg struct {
 	closer                      bool
 	deadline                    string // "", "past", "future", "zero-after-past"
 	bound                       int
+	script                      []int // writer0 runs this instead: n>0 write n bytes, 0 = read one packet itself
 }
 
 func (c c08cfg) name() string {
@@ -30,6 +31,9 @@ func (c c08cfg) name() string {
 	}
 	if c.deadline != "" {
 		s += " +SRD(" + c.deadline + ")"
+	}
+	if c.script != nil {
+		s += fmt.Sprintf(" script%v", c.script)
 	}
 	return s
 }
@@ -62,6 +66,16 @@ func errClass(err error) string {
 	return "err:" + err.Error()
 }
 
+// tagOf identifies a packet by its leading "wNpM" tag (large packets are zero padded).
+func tagOf(p []byte) string {
+	for i, c := range p {
+		if c == 0 {
+			return string(p[:i])
+		}
+	}
+	return string(p)
+}
+
 func c08scenario(c c08cfg) *explore.Scenario {
 	sc := &explore.Scenario{Name: c.name(), Bound: c.bound}
 	sc.Cfg.Horizon = time.Second
@@ -69,6 +83,7 @@ func c08scenario(c c08cfg) *explore.Scenario {
 		var b *packetio.Buffer
 		res := make([]readRes, c.readers)
 		var written []string
+		var extra []string // packets the scripted writer read itself
 		finalCount := -1
 		var tail []readRes
 		closed := false
@@ -78,14 +93,31 @@ func c08scenario(c c08cfg) *explore.Scenario {
 			for i := 0; i < c.readers; i++ {
 				i := i
 				zzvsched.GoNamed(fmt.Sprintf("reader%d", i), func() {
-					buf := make([]byte, 16)
+					buf := make([]byte, 4096)
 					n, err := b.Read(buf)
-					res[i] = readRes{done: true, n: n, err: err, data: string(buf[:n]), at: zzvsched.Elapsed()}
+					res[i] = readRes{done: true, n: n, err: err, data: tagOf(buf[:n]), at: zzvsched.Elapsed()}
 				})
 			}
 			for w := 0; w < c.writers; w++ {
 				w := w
 				zzvsched.GoNamed(fmt.Sprintf("writer%d", w), func() {
+					if w == 0 && c.script != nil {
+						for k, n := range c.script {
+							if n == 0 {
+								buf := make([]byte, 4096)
+								if m, err := b.Read(buf); err == nil {
+									extra = append(extra, tagOf(buf[:m]))
+								}
+								continue
+							}
+							p := make([]byte, n)
+							copy(p, fmt.Sprintf("w%dp%d", w, k))
+							if _, err := b.Write(p); err == nil {
+								written = append(written, tagOf(p))
+							}
+						}
+						return
+					}
 					for k := 0; k < c.perWriter; k++ {
 						p := []byte(fmt.Sprintf("w%dp%d", w, k))
 						if _, err := b.Write(p); err == nil {
@@ -121,9 +153,9 @@ func c08scenario(c c08cfg) *explore.Scenario {
 			// afterwards: with Close the remaining packets are still readable, then EOF
 			if c.closer && closed {
 				for i := 0; i < finalCount+1; i++ {
-					buf := make([]byte, 16)
+					buf := make([]byte, 4096)
 					n, err := b.Read(buf)
-					tail = append(tail, readRes{done: true, n: n, err: err, data: string(buf[:n])})
+					tail = append(tail, readRes{done: true, n: n, err: err, data: tagOf(buf[:n])})
 				}
 			}
 		}
@@ -164,6 +196,7 @@ func c08scenario(c c08cfg) *explore.Scenario {
 					got = append(got, r.data)
 				}
 			}
+			got = append(got, extra...)
 			sort.Strings(outcome)
 			out := strings.Join(outcome, " ") + fmt.Sprintf(" count=%d", finalCount)
 			if len(ex.Panics) > 0 {
@@ -242,6 +275,9 @@ func init() {
 					{readers: 2, writers: 1, perWriter: 1, closer: true, bound: 2},
 					{readers: 1, writers: 1, perWriter: 1, deadline: "past", bound: 2},
 					{readers: 2, writers: 0, perWriter: 0, deadline: "future", bound: 2},
+					// the ring wraps while two readers wait: head/tail in every relative order
+					{readers: 2, writers: 1, script: []int{1500, 10, 0, 1000}, bound: 1},
+					{readers: 2, writers: 1, script: []int{2000, 30, 0, 40, 0, 1990}, bound: 1},
 				}
 			} else {
 				cfgs = []c08cfg{
@@ -252,6 +288,9 @@ func init() {
 					{readers: 3, writers: 1, perWriter: 2, closer: true, bound: 2},
 					{readers: 2, writers: 1, perWriter: 1, deadline: "past", bound: 3},
 					{readers: 2, writers: 1, perWriter: 1, deadline: "future", bound: 3},
+					{readers: 2, writers: 1, script: []int{1500, 10, 0, 1000}, bound: 2},
+					{readers: 2, writers: 1, script: []int{2000, 30, 0, 40, 0, 1990}, bound: 2},
+					{readers: 3, writers: 1, script: []int{1500, 10, 500, 0, 0, 1000}, bound: 2},
 				}
 			}
 			var out []*explore.Scenario
